@@ -269,7 +269,13 @@ func fwIndex(fw string) int {
 	return -1
 }
 
-func runC12(ctx *Ctx) error { return c12Body(ctx, &c12Rows{}) }
+func runC12(ctx *Ctx) error {
+	// JSON request and response bodies: encoding/json vs Model/GoJson.lean, both directions
+	if err := corrGoJSON(ctx, ctx.N(1500, 20000)); err != nil {
+		return err
+	}
+	return c12Body(ctx, &c12Rows{})
+}
 
 func genC12(ctx *Ctx) error {
 	rows := &c12Rows{}
